@@ -25,7 +25,7 @@ import traceback
 import zlib
 from concurrent.futures import ThreadPoolExecutor
 
-GEN_DEPS = ["AESCompressor.compress", "AESCompressor.flush", "AESDecompressor.decompress", "calculate_crc32", "SevenZipDecompressor", "SevenZipDecompressor._decompress", "SevenZipDecompressor._read_data", "SevenZipDecompressor.decompress"]
+GEN_DEPS = ["AESCompressor.compress", "AESCompressor.flush", "AESDecompressor.decompress", "calculate_crc32", "SevenZipDecompressor", "SevenZipDecompressor._decompress", "SevenZipDecompressor._read_data", "SevenZipDecompressor.decompress", "SevenZipCompressor", "SevenZipCompressor.compress", "SevenZipCompressor.flush"]
 LEVEL = "proof"
 TRUSTED_BASE = [
     "Coq 8.16.1 kernel, vm_compute (no native_compute); no axioms (Print Assumptions: closed)",
@@ -1525,8 +1525,8 @@ def run(ctx):
                        "some member/packed stream non-empty; distinct by the whole case description")
     q = tier == "quick"
     if ctx["model"] is not None:
-        from harness import decgen
-        for part, n in ((check_translation, 400 if q else 5000), (decgen.check_decompress, 3000 if q else 60000), (corr_crc, 60 if q else 400), (corr_aes, 1500 if q else 20000), (corr_decompress, 3000 if q else 40000),
+        from harness import decgen, compgen
+        for part, n in ((check_translation, 400 if q else 5000), (decgen.check_decompress, 3000 if q else 60000), (compgen.check_compress, 2000 if q else 40000), (corr_crc, 60 if q else 400), (corr_aes, 1500 if q else 20000), (corr_decompress, 3000 if q else 40000),
                         (corr_worker, 1500 if q else 20000), (corr_compress, 2000 if q else 30000), (corr_unpacksizes, 300 if q else 3000)):
             try:
                 part(ctx, rep, rng, n)
